@@ -209,8 +209,14 @@ TUciRep ==
              ELSE TRUE
   /\ UNCHANGED <<gvars, rootBad>>
 
+\* the engine panicked during a valid call sequence (recorded by the recorder's recover handler)
+TPanic ==
+  /\ IsEvent("panic")
+  /\ LET ev == Trace[l] IN Report(ev, IF ev.engine THEN "PANIC/engine" ELSE "INFRA/recorder-panic", "", [msg |-> ev.msg, root |-> ev.fen])
+  /\ UNCHANGED <<gvars, rootBad>>
+
 TInit == GInit /\ l = 1 /\ rootBad = FALSE
-TNext == TLoad \/ TMake \/ TNullMake \/ TUndo("undo") \/ TUndo("nullundo") \/ TTransp \/ TUciPosition \/ TUciRep
+TNext == TLoad \/ TMake \/ TNullMake \/ TUndo("undo") \/ TUndo("nullundo") \/ TTransp \/ TUciPosition \/ TUciRep \/ TPanic
 
 \* printed once at the end: how far the trace was consumed
 Done == PrintT("DONE " \o ToString(TLCGet("stats").diameter - 1) \o " " \o ToString(Len(Trace)))
